@@ -48,6 +48,17 @@ struct C12 : Harness {
             if (!d.empty()) return "baseline configuration " + apis[0].name + ": " + d;
         }
         size_t comparisons = 0;
+        // "SIMD back ends compiled in or stubbed out" must not matter either: every transcript of every configuration
+        // and back end is compared with the baseline's generic-back-end transcript (returns, outputs, images), and with
+        // the baseline transcript of the *same* back end for the public fields (the parallel size depends on the back end)
+        const Transcript &ref0 = base.begin()->second;
+        CmpOpts cross; cross.img = true; cross.pub = false;
+        for (auto &kv : base) {
+            if (&kv.second == &ref0) continue;
+            std::string d = cmp_transcripts(p, ref0, kv.second, cross, (apis[0].name + "/be" + std::to_string(base.begin()->first)).c_str(), (apis[0].name + "/be" + std::to_string(kv.first)).c_str());
+            if (!d.empty()) return "baseline configuration: back ends disagree: " + d;
+            ++comparisons;
+        }
         for (size_t c = 1; c < apis.size(); ++c) {
             std::set<int> seen;
             for (int pin : pins) {
@@ -57,11 +68,8 @@ struct C12 : Harness {
                 int be = -1; for (auto &r : t) if (r.be >= 0) be = r.be;
                 if (seen.count(be)) continue;
                 seen.insert(be);
-                CmpOpts co; co.img = true;
-                // public fields (parallel size) depend on the back end: compare them only like with like
-                const Transcript *ref = base.count(be) ? &base[be] : &base.begin()->second;
-                co.pub = base.count(be) != 0;
-                std::string d = cmp_transcripts(p, *ref, t, co, apis[0].name.c_str(), apis[c].name.c_str());
+                std::string d = cmp_transcripts(p, ref0, t, cross, apis[0].name.c_str(), apis[c].name.c_str());
+                if (d.empty() && base.count(be)) { CmpOpts like; like.img = true; like.pub = true; d = cmp_transcripts(p, base[be], t, like, apis[0].name.c_str(), apis[c].name.c_str()); }
                 if (!d.empty()) return "configuration " + apis[c].name + " (back end " + std::to_string(be) + ") computes differently from " + apis[0].name + ": " + d;
                 ++comparisons;
                 if (!st.shrinking) st.count("config/" + apis[c].name + "/be" + std::to_string(be));
